@@ -190,6 +190,7 @@ type nodeView struct {
 	states    map[uint64]*cstate.LatestBlockState // consensus state the node had when working on height h
 	appHash   map[uint64]common.Hash
 	incarn    int
+	restartSinceLock bool // the node was restarted after it last precommitted a block (and is still in that height)
 }
 
 func newNodeView() *nodeView {
@@ -345,6 +346,9 @@ func (m *RulesMonitor) Observe(net *Net, n *Node, evs []Ev) {
 			v.signed = map[hrt]string{}
 			v.proposed = map[hrt]string{}
 			v.incarn++
+			if v.lockBID != "" {
+				v.restartSinceLock = true
+			}
 		case EvRecv:
 			switch msg := e.Msg.(type) {
 			case *consensus.VoteMessage:
@@ -456,6 +460,7 @@ func (m *RulesMonitor) checkVoteSign(net *Net, n *Node, v *nodeView, e Ev, wit f
 	v.signed[k] = key
 	if v.lockH != e.Height {
 		v.lockH, v.lockBID, v.lockRound = e.Height, "", 0
+		v.restartSinceLock = false
 	}
 	if key == "nil" {
 		m.A.Counts["signed_nil_"+tname]++
@@ -483,6 +488,7 @@ func (m *RulesMonitor) checkVoteSign(net *Net, n *Node, v *nodeView, e Ev, wit f
 			m.A.Counts["relock_on_other_block"]++
 		}
 		v.lockBID, v.lockRound = key, e.Round
+		v.restartSinceLock = false
 		return
 	}
 	// prevote for a block while locked on another one
@@ -495,7 +501,11 @@ func (m *RulesMonitor) checkVoteSign(net *Net, n *Node, v *nodeView, e Ev, wit f
 			}
 		}
 		if !ok {
-			m.A.Raise("C03", "prevote-against-lock", fmt.Sprintf("node %d, having precommitted %s in round %d, prevoted %s in round %d of height %d without a later +2/3 prevote set for another value", n.Idx, v.lockBID[:12], v.lockRound, key[:12], e.Round, e.Height), wit())
+			k := "prevote-against-lock"
+			if v.restartSinceLock {
+				k = "prevote-against-lock:after-restart-in-the-same-height"
+			}
+			m.A.Raise("C03", k, fmt.Sprintf("node %d, having precommitted %s in round %d, prevoted %s in round %d of height %d without a later +2/3 prevote set for another value", n.Idx, v.lockBID[:12], v.lockRound, key[:12], e.Round, e.Height), wit())
 		} else {
 			m.A.Counts["unlock_prevotes_justified"]++
 		}
